@@ -498,9 +498,17 @@ func c01(ctx *Ctx) (*Outcome, error) {
 		o := sg.Opts{MaxDepth: 3, Descs: true, DescPool: HostileTexts, Titles: c01Titles, IntLimits: true, PNullable: 0.25, PDefault: 0.35, PAddProps: 0.3, NullType: true, RootKinds: true}
 		if r.Chance(0.35) {
 			o.Names = c01Names
+		} else if r.Chance(0.15) {
+			o.Names = InternalNames
 		}
 		g := sg.NewGen(r, o)
 		root := g.Root()
+		if i%25 == 7 {
+			// definitions / properties / root type named after identifiers of the generated code
+			ic := internalNameCase(i/25, r)
+			cases = append(cases, &c01Case{root: ic.Root, args: append(RandArgs(r, ic.Root), ic.Args...), tag: "clean"})
+			continue
+		}
 		if r.Chance(0.3) {
 			root.ID = sg.PickOf(r, []string{"https://example.com/root", "urn:x:y", "root.json", "http://example.com/a/b.json#"})
 			if r.Chance(0.3) {
@@ -513,7 +521,7 @@ func c01(ctx *Ctx) (*Outcome, error) {
 		if r.Chance(0.3) {
 			root.Desc = sg.PickOf(r, HostileTexts)
 		}
-		if r.Chance(0.15) {
+		if r.Chance(0.2) {
 			addExtension(r, root)
 		}
 		cases = append(cases, &c01Case{root: root, args: RandArgs(r, root), tag: "clean"})
@@ -712,7 +720,16 @@ func addExtension(r *sg.Rng, root *sg.Schema) {
 	if p.Ref != "" || p.HasEnum || p.HasDefault {
 		return
 	}
-	switch r.IntN(3) {
+	// custom types from packages the generated code imports itself (with and without an alias of its own)
+	own := [][2]string{{"yaml.Node", "gopkg.in/yaml.v3"}, {"json.RawMessage", "encoding/json"}, {"reflect.Kind", "reflect"}, {"regexp.Regexp", "regexp"},
+		{"strings.Builder", "strings"}, {"time.Time", "time"}, {"mapstructure.Metadata", "github.com/go-viper/mapstructure/v2"}, {"fmt.Stringer", "fmt"}, {"errors.ErrUnsupported", ""}}
+	switch r.IntN(5) {
+	case 3, 4:
+		o := own[r.IntN(len(own)-1)]
+		p.Ext = jsonx.Obj{{K: "type", V: o[0]}, {K: "imports", V: []any{o[1]}}}
+		if r.Chance(0.3) {
+			p.Ext = append(p.Ext, jsonx.KV{K: "nillable", V: true})
+		}
 	case 0:
 		p.Ext = jsonx.Obj{{K: "type", V: "time.Duration"}, {K: "imports", V: []any{"time"}}}
 	case 1:
